@@ -57,6 +57,8 @@ type Case struct {
 	Tree   *TreeJ          `json:"tree,omitempty"`   // hhmm
 	Theta4 [][][][]float64 `json:"theta4,omitempty"` // mat / shape: [c][window row][coordinate][symbol]
 	ZSets  [][]int         `json:"zsets,omitempty"`  // pre
+	// round 5 (hist.go): kind "hist", a history of setter calls applied after the constructor
+	Ops []OpJ `json:"ops,omitempty"`
 }
 
 // ---------------------------------------------------------------- data records
@@ -856,6 +858,10 @@ func emit(c Case, w *CaseWriter, key string) {
 		emitCH(c, w, key)
 		return
 	}
+	if c.Kind == "hist" {
+		emitHist(c, w, key)
+		return
+	}
 	if isMix(c) {
 		obs, err := observeMix(c)
 		if err != nil {
@@ -901,7 +907,7 @@ func emit(c Case, w *CaseWriter, key string) {
 	w.Add("XC ("+coqH(c, obs)+")", c, key, nontriv)
 }
 
-const hdr = "From Coq Require Import List ZArith QArith Floats. Import ListNotations.\nFrom ADV Require Import C15.Model C15.ModelCH C15.Corr C15.CorrCH.\nOpen Scope nat_scope.\n"
+const hdr = "From Coq Require Import List ZArith QArith Floats. Import ListNotations.\nFrom ADV Require Import C15.Model C15.ModelCH C15.ModelSet C15.Corr C15.CorrCH.\nOpen Scope nat_scope.\n"
 
 func main() {
 	o := ParseFlags()
@@ -928,7 +934,7 @@ func main() {
 	}
 	w := NewCaseWriter(o.Out, "cases", hdr, "xmism", 5)
 	w.Type = "xcase"
-	w.Rule = "random HMMs (1-4 states, sequence length 1-6, 1-3 sequences per model, probabilities k/16 with zeros, unnormalised rows, all-zero rows, nil/permuted/non-injective state maps, start/final restrictions incl. -1 and duplicates, emission tables or categorical emissions through vectorDistribution.Hmm, Float64 or Real64 parameters) and mixtures (1-4 components, table or categorical); an HMM case is non-trivial iff it has >= 2 states and a sequence of length >= 3 with positive likelihood, a mixture iff >= 2 non-zero weights; a Baum-Welch case (2-4 records of different lengths on one thread, both record orders, poisoned work memory) is non-trivial iff it has >= 2 states, a longer record directly before a shorter one and the step succeeds; distinct = distinct input"
+	w.Rule = "random HMMs (1-4 states, sequence length 1-6, 1-3 sequences per model, probabilities k/16 with zeros, unnormalised rows, all-zero rows, nil/permuted/non-injective state maps, start/final restrictions incl. -1 and duplicates, emission tables or categorical emissions through vectorDistribution.Hmm, Float64 or Real64 parameters) and mixtures (1-4 components, table or categorical); an HMM case is non-trivial iff it has >= 2 states and a sequence of length >= 3 with positive likelihood, a mixture iff >= 2 non-zero weights; a Baum-Welch case (2-4 records of different lengths on one thread, both record orders, poisoned work memory) is non-trivial iff it has >= 2 states, a longer record directly before a shorter one and the step succeeds; a setter history (1-5 calls of SetStartStates / SetFinalStates / SetParameters / Clone after the constructor, then sequences of every length 1..n, n in 2..4) is non-trivial iff it has >= 2 states, a SetParameters after an accepted SetFinalStates and a sequence of length >= 2 with positive likelihood; distinct = distinct input"
 	corpus, _ := os.ReadFile(o.Extra)
 	if len(corpus) > 0 {
 		for _, line := range strings.Split(string(corpus), "\n") {
@@ -977,6 +983,14 @@ func main() {
 		default:
 			c = genPre(r, w)
 		}
+		b, _ := json.Marshal(c)
+		emit(c, w, string(b))
+	}
+	// round 5: setter histories (SetStartStates / SetFinalStates / SetParameters / Clone in any order)
+	rng5 := NewRng(o.Seed*1000003 + 515)
+	for k := 0; k < o.N*2/5; k++ {
+		r := rng5.Split()
+		c := genHist(r, w)
 		b, _ := json.Marshal(c)
 		emit(c, w, string(b))
 	}
